@@ -20,6 +20,7 @@ import (
 
 	"github.com/mattn/anko/ast"
 	"github.com/mattn/anko/env"
+	"github.com/mattn/anko/vm"
 
 	"verifharness/internal/ank"
 	"verifharness/internal/gen"
@@ -117,6 +118,15 @@ func (r *Recorder) Bind(e *env.Env) {
 	// a number of the named Go kind, a container or string of the named Go type with n entries
 	e.Define("hnum", func(kind string, n int64) interface{} { return HostNum(kind, n) })
 	e.Define("hcont", func(kind string, n int64) interface{} { return HostCont(kind, int(n)) })
+	// hrun runs a source text as a run of its own (fresh environment) and panics with its error,
+	// like core's load() does with a file (used by the direct checks only)
+	e.Define("hrun", func(src string) interface{} {
+		v, err := vm.Execute(env.NewEnv(), nil, src)
+		if err != nil {
+			panic(err)
+		}
+		return v
+	})
 	// nm: a nil typed map handed in by the host (reads of any key yield nil)
 	e.Define("nm", map[string]int64(nil))
 	e.Define("mb", func(k interface{}) { r.ev("mb " + ank.Render(k)) })
